@@ -172,7 +172,7 @@ Example C03_sim_hyps_satisfiable :
   (forall normalize, exists data, @simulate ROps 5%R true normalize ex_g ex_K = Ok data) /\
   (forall normalize, exists c, @convolver_init ROps ex_m (@sim_psf ROps normalize ex_K) = Ok c).
 Proof.
-  repeat split; try (vm_compute; reflexivity).
+  split; [vm_compute; reflexivity|]. split; [vm_compute; reflexivity|]. split.
   - intros normalize. rewrite C03_simulated_data_is_whole_frame_convolution by (vm_compute; reflexivity).
     replace (oddb (rows ex_K) && oddb (cols ex_K)) with true by (vm_compute; reflexivity). eexists. reflexivity.
   - intros normalize. pose proof (C03_convolver_init_cases ex_m (@sim_psf ROps normalize ex_K)) as H.
